@@ -335,6 +335,14 @@ def check_declaration(cx: Cx):
         good = False
         for a in atoms_of(p.cond):
             t_ = getattr(a, 't', None)
+            if isinstance(a, ATruthy) and isinstance(t_, App) and t_.fn == 'any' and t_.args and implies(p.cond, f_not(a)) is None:
+                # not any(type(k) != str for k in parameters)
+                d_ = getattr(t_.args[0], 'detail', None)
+                if d_ is not None and len(d_.gens) == 1 and strip_versions(d_.gens[0][1]) in (src_p, App('.keys', (src_p,))) and not d_.gens[0][2]:
+                    v_ = d_.gens[0][0]
+                    from sa.terms import BoolT as _B
+                    if isinstance(d_.elt, _B) and d_.elt.f in (f_not(AEq(App('type', (v_,)), Sym('str'))), f_not(AIsInst(v_, Sym('str')))):
+                        good = True
             if isinstance(a, ATruthy) and isinstance(t_, App) and t_.fn == 'all' and t_.args and implies(p.cond, a) is None:
                 d_ = getattr(t_.args[0], 'detail', None)
                 if d_ is not None and len(d_.gens) == 1 and strip_versions(d_.gens[0][1]) in (src_p, App('.keys', (src_p,))) and not d_.gens[0][2]:
